@@ -62,10 +62,10 @@ type rdr struct {
 func (x *rdr) rec(i int) []byte { return x.arena[x.idx[i][0]:x.idx[i][1]] }
 
 const (
-	rvFast = iota // large Reads straight into the arena
-	rvByte        // ReadByte
-	rvSmall       // Reads of 1..9 bytes and zero-length Reads
-	rvAll         // io.ReadAll
+	rvFast  = iota // large Reads straight into the arena
+	rvByte         // ReadByte
+	rvSmall        // Reads of 1..9 bytes and zero-length Reads
+	rvAll          // io.ReadAll
 )
 
 // run reads the whole stream. variant selects how records are consumed; slow
